@@ -23,7 +23,11 @@ changed while the messages were processed: delivery-order dependent), `fixKey = 
 key of a member that is not in QUAL, or whose valid points are held, polluted the group key),
 `fixDedup11 = false` (phase 11 recovered shares from every message, not only the first per sender),
 `fixAbort = false` (an accusation/reveal whose sender published no public key for the named member
-— e.g. naming itself — aborted the protocol of every member that accepted the message).
+— e.g. naming itself — aborted the protocol of every member that accepted the message),
+`fix4 = false` (phase 4 checked the completeness of a shares message against a group state that
+changed while the messages were processed), `fixOrder = false` (phases 5/9 marked inactive members
+before resolving the accusations: a convicted member that was also silent ended IA for the judges
+but DQ for its accuser).
 -/
 namespace KeepVerif.C01
 
@@ -142,6 +146,8 @@ structure St where
   fixKey : Bool := true    -- only QUAL members are reconstructed; no individual key is added twice
   fixDedup11 : Bool := true -- phase 11 recovers shares from the first message of every sender only
   fixAbort : Bool := true  -- a missing public key of the accuser/revealer disqualifies it instead of aborting
+  fix4 : Bool := true      -- phase 4 validates shares messages against the members operating at its beginning
+  fixOrder : Bool := true  -- phases 5 and 9 resolve the accusations before marking inactive members
   status : Status := .ok
   ia : List Nat := []
   dq : List Nat := []
@@ -241,6 +247,7 @@ def phase4 (st : St) : St × List Msg :=
   let st := markInactive st ((shs.map (·.1)).filter (fun s => (cms.map (·.1)).contains s))
   let dsh := dedup (·.1) shs
   let st := dsh.foldl (fun s (sender, x) => { s with evShares := putNew sender x s.evShares }) st
+  let snap := st
   let (st, acc) := (dedup (·.1) cms).foldl (fun (sa : St × List (Nat × Nat)) (sender, cs) =>
     let (s, acc) := sa
     if s.status ≠ .ok then sa else
@@ -249,7 +256,7 @@ def phase4 (st : St) : St × List Msg :=
     match lookup sender dsh with
     | none => (s, acc)
     | some sh =>
-      if !isValidShares s sender sh then (markDQ s sender, acc) else
+      if !isValidShares (if s.fix4 then snap else s) sender sh then (markDQ s sender, acc) else
       match lookup sender s.sym with
       | none => ({ s with status := .errNoSymKey }, acc)
       | some k =>
@@ -312,13 +319,14 @@ def accusations (msgs : List (Nat × List (Nat × Nat))) : List (Nat × Nat × N
 
 def phase5 (st : St) : St :=
   let msgs := st.prev.filterMap (fun m => match m with | .acc4 h x => some (h.sender, x) | _ => none)
-  let st := markInactive st (msgs.map (·.1))
-  (accusations msgs).foldl (fun s (accuser, accused, key) =>
+  let st := if st.fixOrder then st else markInactive st (msgs.map (·.1))
+  let st := (accusations msgs).foldl (fun s (accuser, accused, key) =>
     if s.status ≠ .ok then s else
     match verdict5 (evidence s) s.q s.id s.n ((lookup accused s.recvC).getD []) accuser accused key with
     | .fatal => if s.fixAbort then discardShares (markDQ s accuser) accuser else { s with status := .errNoPubKey }
     | .accuser => discardShares (markDQ s accuser) accuser
     | _ => discardShares (markDQ s accused) accused) st
+  if st.fixOrder && st.status = .ok then markInactive st (msgs.map (·.1)) else st
 
 /-- points of the accused a phase-9 accusation is judged against -/
 def pointsOf (st : St) (j : Nat) : List Nat :=
@@ -335,14 +343,15 @@ def discardPoints (st : St) (j : Nat) : St :=
 
 def phase9 (st : St) : St :=
   let msgs := st.prev.filterMap (fun m => match m with | .acc8 h x => some (h.sender, x) | _ => none)
-  let st := markInactive st (msgs.map (·.1))
-  (accusations msgs).foldl (fun s (accuser, accused, key) =>
+  let st := if st.fixOrder then st else markInactive st (msgs.map (·.1))
+  let st := (accusations msgs).foldl (fun s (accuser, accused, key) =>
     if s.status ≠ .ok then s else
     match verdict9 (evidence s) s.q s.id s.n (pointsOf s accused) accuser accused key with
     | .fatal => if s.fixAbort then markDQ s accuser else { s with status := .errNoPubKey }
     | .accuser => markDQ s accuser
     | .accused => discardPoints (markDQ s accused) accused
     | .both => discardPoints (markDQ (markDQ s accuser) accused) accused) st
+  if st.fixOrder && st.status = .ok then markInactive st (msgs.map (·.1)) else st
 
 /-! ## phases 6–8 -/
 
@@ -467,6 +476,8 @@ structure Cfg where
   fixKey : Bool := true
   fixDedup11 : Bool := true
   fixAbort : Bool := true
+  fix4 : Bool := true
+  fixOrder : Bool := true
 
 /-- coefficient injected by the harness for member `i`, slot `j` (see `gjk.Coef`) -/
 def coef (q seed i j : Nat) : Nat :=
@@ -547,7 +558,7 @@ def applyScript (cfg : Cfg) (st : St) (ph : Nat) (out : List Msg) : List Msg :=
 
 def initSt (cfg : Cfg) (i : Nat) : St :=
   { id := i, n := cfg.n, t := cfg.t, q := cfg.q, fixed := cfg.fixed, fix11 := cfg.fix11, fixKey := cfg.fixKey,
-    fixDedup11 := cfg.fixDedup11, fixAbort := cfg.fixAbort,
+    fixDedup11 := cfg.fixDedup11, fixAbort := cfg.fixAbort, fix4 := cfg.fix4, fixOrder := cfg.fixOrder,
     coefA := (List.range (cfg.t + 1)).map (fun k => coef cfg.q cfg.seed i k),
     coefB := (List.range (cfg.t + 1)).map (fun k => coef cfg.q cfg.seed i (cfg.t + 1 + k)) }
 
